@@ -603,7 +603,7 @@ theorem nodeStep_completeS (E : Env) (A : Assign) (rec : NPId → NodeId → Sta
       rw [lookupNode_cons] at hm'
       obtain ⟨hmr, hm1⟩ := or_none_both hm'
       have l12 : Le c1' c2 :=
-        ⟨fun _ _ h => h, fun _ _ h => h, fun k x h => lookup_snoc_of_some _ _ _ _ _ h⟩
+        ⟨fun _ _ h => h, fun _ _ h => h, fun k x h => lookup_snoc_of_some _ _ _ _ _ h, id⟩
       have f2 : FreshP rest c2 :=
         ⟨f1.b, f1.v, fun k x hmem => by
             rcases List.mem_append.1 hmem with h1 | h1
